@@ -1,0 +1,10 @@
+//go:build !verif
+
+package object
+
+// No-op versions of the verification hooks (see verif_on.go).
+
+func VerifPoint(string)       {}
+func VerifFault(string) error { return nil }
+func verifRegMade()           {}
+func verifRegReleased()       {}
